@@ -188,12 +188,14 @@ PROPS = {
                 "consumed by the server per attempt (net.Pipe: a cut after n bytes means exactly n bytes were consumed); oracle after every "
                 "cut: final name absent unless the data fork is complete, partial file == exact prefix, resume offset == prefix length; after "
                 "completion: file == content, no partial, re-upload refused, stale reference harmless, download returns the content; "
-                "non-trivial = at least one cut that left a non-empty partial file (followed by a resume); distinct = hash(name, content, cuts); in 3 of 5 cases the client's bytes on the transfer connection are cut into segments (random cuts, cuts inside the fixed-size headers, byte by byte); TestC09DoubleGrant: two uploads of one name granted while the name is free (a second plain grant, or two resume grants after a cut), the first transfer completes, then the second runs: the published file must keep the first upload's bytes and a third request is refused; with PreserveResourceForks and a three-fork upload whose completing attempt delivered its whole stream, the download returns exactly the uploaded resource fork; in a quarter of the cases the name has a history (a file with a resource fork and a comment was deleted through the protocol just before): a two-fork upload must come back without any resource fork and without the earlier file's information fork",
+                "non-trivial = at least one cut that left a non-empty partial file (followed by a resume); distinct = hash(name, content, cuts); in 3 of 5 cases the client's bytes on the transfer connection are cut into segments (random cuts, cuts inside the fixed-size headers, byte by byte); TestC09DoubleGrant: two uploads of one name granted while the name is free (a second plain grant, or two resume grants after a cut), the first transfer completes, then the second runs: the published file must keep the first upload's bytes and a third request is refused; with PreserveResourceForks and a three-fork upload whose completing attempt delivered its whole stream, the download returns exactly the uploaded resource fork; in a quarter of the cases the name has a history (a file with a resource fork and a comment was deleted through the protocol just before): a two-fork upload must come back without any resource fork and without the earlier file's information fork; TestC09HugeAnnounced: the data fork is announced with 2^24 .. 2^32-1 bytes and the connection dies after 0-40000 of them: no final name, the partial file holds exactly what arrived and the server reports that offset for a resume",
         "assumptions": ["each attempt is written with a single Write (segmentation is C02's subject)", "fork side files (.info_/.rsrc_) left after a cut are not constrained"],
         "quick": {"runs": [{"test": "^TestC09$", "shards": 13, "checks": 250, "timeout": 600},
-                           {"test": "^TestC09DoubleGrant$", "shards": 3, "checks": 150, "timeout": 600}]},
+                           {"test": "^TestC09DoubleGrant$", "shards": 2, "checks": 220, "timeout": 600},
+                           {"test": "^TestC09HugeAnnounced$", "shards": 1, "checks": 120, "timeout": 600}]},
         "thorough": {"runs": [{"test": "^TestC09$", "shards": 13, "checks": 4000, "timeout": 3400},
-                              {"test": "^TestC09DoubleGrant$", "shards": 3, "checks": 4000, "timeout": 3400}]},
+                              {"test": "^TestC09DoubleGrant$", "shards": 2, "checks": 6000, "timeout": 3400},
+                              {"test": "^TestC09HugeAnnounced$", "shards": 1, "checks": 4000, "timeout": 3400}]},
     },
     "C10": {
         "title": "Folder transfers reproduce the tree, item by item",
